@@ -96,6 +96,10 @@ type c01xObs struct {
 
 // c01xRun: one exchange, downstream protocol dp, upstream protocol up.
 func c01xRun(c *c01hCase, dp, up api.ProtocolName) (obs c01xObs, harness string) {
+	return c01hRerun(func() (c01xObs, string) { return c01xRunOnce(c, dp, up) })
+}
+
+func c01xRunOnce(c *c01hCase, dp, up api.ProtocolName) (obs c01xObs, harness string) {
 	s, h := c01hNewSessionProtos(dp, up)
 	if h != "" {
 		return obs, h
@@ -255,7 +259,7 @@ func c01xRun(c *c01hCase, dp, up api.ProtocolName) (obs c01xObs, harness string)
 	if perr != nil {
 		return obs, perr.Error()
 	}
-	deadline := time.Now().Add(c01hTimeout)
+	deadline := c01hNewDeadline()
 	for {
 		s.p.asMux.RLock()
 		n := s.p.activeStreams.Len()
@@ -263,7 +267,8 @@ func c01xRun(c *c01hCase, dp, up api.ProtocolName) (obs c01xObs, harness string)
 		if n == 0 {
 			break
 		}
-		if time.Now().After(deadline) {
+		if deadline.expired() {
+			c01hDump("the proxy still has an active stream")
 			return obs, "timeout: the proxy still has an active stream after the response was written"
 		}
 		time.Sleep(20 * time.Microsecond)
@@ -501,6 +506,7 @@ func TestVerifC01HTTPXCross(t *testing.T) {
 		if pr.name == "http2->http1" {
 			bound = "pairing http2->http1 through the real proxy (route upstream_protocol), no transcoder filter: 6 representative exchanges ({GET, POST+body} x 3 targets) - every exchange of this pairing ends in the recorded finding"
 		}
+		c01hReportRecovered(p)
 		p.End(complete, bound,
 			"compared like the same-protocol parts: method, request-target byte-for-byte, Host/:authority, header multiset (Connection / Content-Length / Transfer-Encoding not compared, connection-specific fields cannot cross into HTTP/2; Date added when absent not compared), body; status code, header multiset, body")
 	}
